@@ -28,12 +28,11 @@
 //   L6 PTR   RDATA = pointer to itself
 //   L7 SOA   RDATA = MNAME pointer to itself + RNAME root + 5 x u32  (authority section)
 //   L8 NAPTR RDATA = order pref "" "" "" + replacement pointer to 0x3FFF
-//   V1 two records: first an unknown-type record whose RDATA is the single octet 0x00 ... no:
-//      the message must END with the root octet, so: CNAME RDATA = pointer to the last octet
-//      of the message, which is the root octet ending the RDATA of a following unknown-type
-//      additional record ("\3foo\0"): the CNAME target is the root name ".", a legal name.
-//   V2 control: CNAME RDATA = pointer to "\3foo\0" itself (target "foo") - must work before
-//      and after.
+//   V1 CNAME RDATA = pointer to the LAST octet of the message; that octet is the root octet
+//      which ends the RDATA "\3foo\0" of a following unknown-type additional record, so the
+//      CNAME target is the root name - a complete, legal name of one octet.
+//   V2 control: CNAME RDATA = pointer to that "\3foo\0" itself (target "foo") - must work
+//      before and after.
 //
 // Correct: L1..L8 -> DnsMessage::parse throws DnsParseException; V1, V2 -> parse returns and
 // cname_records has exactly one entry (V1: empty/root target, V2: "foo").
